@@ -3,7 +3,7 @@ from . import modecommon, C05
 from .. import asmsrc
 
 LEVEL = "other"
-RM = {"MODE": "R-C09-CONSTR", "RT": "R-C09-CONSTR", "PREFIX": "R-C09-CONSTR", "NONCE2": "R-C09-DEP", "TAGPOS": "R-C09-CONSTR", "ADVANCE": "R-C09-CONSTR"}
+RM = {"MODE": "R-C09-CONSTR", "RT": "R-C09-CONSTR", "WIPESTART": "R-C09-CONSTR", "PREFIX": "R-C09-CONSTR", "NONCE2": "R-C09-DEP", "TAGPOS": "R-C09-CONSTR", "ADVANCE": "R-C09-CONSTR"}
 
 
 def run(ck, build):
